@@ -42,6 +42,7 @@ func (t *Tree) parseOuterExprPrec(expr Expr, min int) (Expr, error) {
 		switch nt.value {
 		case ".", "[": // Dot or array access
 			var args = make([]Expr, 0)
+			first := t.peekNonSpace()
 			attr, err := t.parseInnerExpr()
 			if err != nil {
 				return nil, err
@@ -72,7 +73,8 @@ func (t *Tree) parseOuterExprPrec(expr Expr, min int) (Expr, error) {
 					}
 					attr = NewStringExpr(exp.Name, exp.Pos)
 				default:
-					return nil, newUnexpectedTokenError(nt)
+					// (reported at the attribute, not at the dot before it)
+					return nil, newUnexpectedTokenError(first)
 				}
 			}
 			return t.parseOuterExprPrec(NewGetAttrExpr(expr, attr, args, nt.Pos), min)
@@ -81,6 +83,7 @@ func (t *Tree) parseOuterExprPrec(expr Expr, min int) (Expr, error) {
 
 			// Parse the filter expression using parseInnerExpr to handle binary expressions
 			// or chained expressions
+			first := t.peekNonSpace()
 			nx, err := t.parseInnerExpr()
 
 			if err != nil {
@@ -101,7 +104,7 @@ func (t *Tree) parseOuterExprPrec(expr Expr, min int) (Expr, error) {
 					n.Left = v
 					resultExpr = n
 				default:
-					return nil, newUnexpectedTokenError(nt)
+					return nil, newUnexpectedTokenError(first)
 				}
 			case *NameExpr:
 				resultExpr = NewFilterExpr(n.Name, []Expr{expr}, nt.Pos)
@@ -118,7 +121,7 @@ func (t *Tree) parseOuterExprPrec(expr Expr, min int) (Expr, error) {
 				resultExpr = n
 
 			default:
-				return nil, newUnexpectedTokenError(nt)
+				return nil, newUnexpectedTokenError(first)
 			}
 
 			// Continue parsing potential outer expressions (including more filters)
